@@ -24,6 +24,23 @@ Section Statements.
     /\ (forall m, max_n_steps NumR o = Some m -> (0 < m)%nat -> (length bs <= m)%nat).
   Proof. exact (sample_schedule P G effq essq ratio ratio_var cte pbeta psize resample_o mutate_o). Qed.
 
+  (* the same holds for a run RESUMED from any payload the run emitted (a mid-run one, or the last one of a run that had already
+     stopped at temperature 1 or at its step cap): the resumed run adds no step beyond what the uninterrupted run took *)
+  Theorem C06_schedule_resumed :
+    (forall g p b n, psize (fst (resample_o g p b (Some n))) = n) ->
+    (forall g p b f, psize (fst (mutate_o g p b f)) = psize p) ->
+    forall fuel o p0 g0 out evs,
+    valid o -> SAMPLE fuel o p0 g0 = Ok (out, evs) ->
+    forall c, In c evs ->
+    exists out' evs',
+      sample_resumed NumR P G effq essq ratio ratio_var cte pbeta psize resample_o mutate_o fuel o c = Ok (out', evs')
+      /\ let bs := h_beta _ _ (o_hist _ _ _ out') in
+         incr_from 0 bs /\ Forall (fun b => 0 < b <= 1) bs /\ bs <> []
+         /\ o_iter _ _ _ out' = length bs
+         /\ (last bs 0 = 1 \/ exists m, max_n_steps NumR o = Some m /\ (m <= length bs)%nat)
+         /\ (forall m, max_n_steps NumR o = Some m -> (0 < m)%nat -> (length bs <= m)%nat).
+  Proof. exact (sample_schedule_resumed P G effq essq ratio ratio_var cte pbeta psize resample_o mutate_o). Qed.
+
   (* never raises, never spins: an explicit iteration bound (ceil(2/tol) adaptive, ceil(2n) fixed) suffices *)
   Theorem C06_terminates_no_error : forall f o p0 g0,
     valid o -> fuel_ok o -> 1 <= INR f * delta o -> exists r, SAMPLE f o p0 g0 = Ok r.
@@ -67,6 +84,7 @@ Theorem C06_fixed_n_f64 : forall (P G : Type) effq essq ratio ratio_var cte pbet
 Proof. exact sample_fixed_n_f64. Qed.
 
 Print Assumptions C06_schedule.
+Print Assumptions C06_schedule_resumed.
 Print Assumptions C06_terminates_no_error.
 Print Assumptions C06_fixed_n_exact.
 Print Assumptions C06_step.
